@@ -66,9 +66,53 @@ def on_sim(name):
     return res
 
 
+async def spy_transparency():
+    """a failure of the wrapped back end reaches the caller of the spy exactly as it reaches the caller of the back end
+    itself: same exception type, same wrapped reason (type, errno)"""
+    import pathlib
+    import shutil
+    import tempfile
+
+    def shape(e):
+        r = getattr(e, "reason", None)
+        inner = r[1] if r else None
+        return (type(e).__name__, type(inner).__name__, getattr(inner, "errno", None))
+    bad = []
+    for base in (aioftp.MemoryPathIO, aioftp.PathIO, aioftp.AsyncPathIO):
+        root = tempfile.mkdtemp(prefix="aioftp-verif-fid-")
+        try:
+            seen = {}
+            for spied in (False, True):
+                factory = spyfs.make_spy(base, spyfs.SpyControl()) if spied else base
+                pio = factory(timeout=None)
+                top = pathlib.PurePosixPath("/t") if base is aioftp.MemoryPathIO else pathlib.Path(root) / ("s" if spied else "p")
+                await pio.mkdir(top)
+                await pio.mkdir(top / "full")
+                await pio.mkdir(top / "full" / "inner")
+                got = []
+                for op, arg in (("rmdir", top / "full"), ("rmdir", top / "nope"), ("mkdir", top / "full"), ("unlink", top / "nope"),
+                                ("unlink", top / "full"), ("stat", top / "nope"), ("mkdir", top / "a" / "b")):
+                    try:
+                        await getattr(pio, op)(arg)
+                        got.append((op, "ok"))
+                    except Exception as e:
+                        got.append((op, shape(e)))
+                seen[spied] = got
+            if seen[False] != seen[True]:
+                bad.append((base.__name__, seen[False], seen[True]))
+        finally:
+            shutil.rmtree(root, ignore_errors=True)
+    for name, a, b in bad:
+        print(f"FIDELITY MISMATCH spy over {name} changes what a failure looks like:\n  plain: {a}\n  spied: {b}")
+    print(f"fidelity guard: spy transparent for failures of {3 - len(bad)}/3 back ends")
+    return len(bad)
+
+
 def main(names=None):
     pin_clocks()
     bad = 0
+    if not names:
+        bad += asyncio.run(spy_transparency())
     names = names or SCRIPTS
     for name in names:
         sim = on_sim(name)
